@@ -505,7 +505,9 @@ func loaderStuck() bool {
 		}
 		hdr := g[:nl]
 		isCaller := strings.Contains(g, "nitro.(*Nitro).LoadFromDisk(")
-		isWorker := !isCaller && strings.Contains(g, "nitro.(*Nitro).LoadFromDisk.func")
+		// any other goroutine that runs a func literal of LoadFromDisk or was created by it — including one
+		// that has not been scheduled yet (its stack is only the go-wrapper and the "created by" line)
+		isWorker := !isCaller && strings.Contains(g, "nitro.(*Nitro).LoadFromDisk")
 		if isWorker {
 			workers++
 		}
